@@ -171,7 +171,7 @@ DecodeClauses(e) ==
   (IF P("C02")
    THEN LET D == Dec(T, pre) IN
         IF D.ok /\ e.res = "ok" /\ ~(e.vpost = D.val /\ okshape /\ used = D.used) THEN {<<"C02.decode", "none">>}
-        ELSE IF D.ok /\ hd.t = T /\ hd.conf /\ e.res # "ok" THEN {<<"C02.decode", "rejects-pinned-encoding">>}
+        ELSE IF D.ok /\ ((hd.t = T /\ hd.conf) \/ e.tag = "spec-image") /\ e.res # "ok" THEN {<<"C02.decode", "rejects-pinned-encoding">>}
         ELSE {}
    ELSE {})
   \cup
@@ -290,7 +290,7 @@ RECURSIVE QBytesR(_, _)
 QBytesR(qs, i) == IF i = 0 THEN 0 ELSE Len(qs[i].bytes) + QBytesR(qs, i - 1)
 QBytes(qs) == QBytesR(qs, Len(qs))
 
-BufOps == {"encode", "decode", "next", "reset", "write", "load", "cut", "scribble", "peek", "calc", "prim", "fill"}
+BufOps == {"encode", "decode", "next", "reset", "write", "load", "cut", "scribble", "peek", "calc", "prim", "fill", "poke"}   \* (regremove/regrestore touch no buffer)
 
 Step(e) ==
   LET b == e.b
@@ -312,12 +312,12 @@ Step(e) ==
                                          conf |-> (IF P("C02") THEN LET E == EncMsg(e.t, v) IN E.ok /\ E.bytes = appended ELSE FALSE)]))
             [] e.op = "encode" -> q      \* appended after foreign bytes (or failed): not part of the channel view
             [] decOK /\ alignedHead /\ used = Len(Q(b)[1].bytes) -> Put(q, b, Tail(Q(b)))
-            [] e.op \in {"decode", "next", "reset", "load", "cut", "scribble"} -> Put(q, b, <<>>)
+            [] e.op \in {"decode", "next", "reset", "load", "cut", "scribble", "poke"} -> Put(q, b, <<>>)
             [] OTHER -> q
   /\ lead' = CASE encOK /\ Len(pre) = 0 -> Put(lead, b, 0)
                [] e.op = "encode" -> lead
                [] decOK /\ alignedHead /\ used = Len(Q(b)[1].bytes) -> lead
-               [] e.op \in {"decode", "next", "reset", "load", "cut", "scribble"} -> Put(lead, b, Len(e.post))
+               [] e.op \in {"decode", "next", "reset", "load", "cut", "scribble", "poke"} -> Put(lead, b, Len(e.post))
                [] e.op = "write" /\ Len(Q(b)) = 0 -> Put(lead, b, Len(e.post))
                [] OTHER -> lead
   /\ F' = IF encOK /\ Len(pre) = 0 /\ v \notin DOMAIN F THEN Put(F, v, appended) ELSE F
